@@ -1,5 +1,83 @@
-import Rtcm.Model.Names
-import Rtcm.Model.Socket
+import Rtcm.Lemmas.ReaderEvents
+import Rtcm.Lemmas.Stream
 import Rtcm.Gen.Tables
+/-
+  C04 — parsing is total: only the library's own errors, and it always terminates.
+-/
 namespace Rtcm
+
+/-- the message constructor never lets a foreign exception escape, for any payload (or none) -/
+theorem C04_message (T : Tables) (p : Option Bytes) (l : Nat) : (construct T p l).isForeign = false :=
+  construct_not_foreign T p l
+
+/-- nor does the static parser, with validation on or off -/
+theorem C04_parse (T : Tables) (buf : Bytes) (v l : Nat) : (parse T buf v l).isForeign = false :=
+  parse_not_foreign T buf v l
+
+/-- `read()`: no foreign exception escapes, and an exception is raised only in raise mode -/
+theorem readOne_events (ops : StreamOps σ) (T : Tables) (o : Opts) (s : σ) :
+    ∀ ev ∈ (readOne ops T o s).1, ev.isForeign = false
+      ∧ (ev.isRaised = true → o.quitonerror = T.errRaise ∧ o.quitonerror ≠ 0) := by
+  fun_induction readOne ops T o s with
+  | case1 s evs s' h =>
+    intro ev hev
+    have := iter_events ops T o s ev (by rw [h]; exact hev)
+    exact ⟨this.1, this.2.2⟩
+  | case2 s evs s' h hlt r ih =>
+    intro ev hev
+    simp only [List.mem_append] at hev
+    rcases hev with hev | hev
+    · have := iter_events ops T o s ev (by rw [h]; exact hev)
+      exact ⟨this.1, this.2.2⟩
+    · exact ih ev hev
+  | case3 s evs s' h hlt =>
+    intro ev hev
+    simp only [List.mem_append, List.mem_singleton] at hev
+    rcases hev with hev | hev
+    · have := iter_events ops T o s ev (by rw [h]; exact hev)
+      exact ⟨this.1, this.2.2⟩
+    · subst hev; exact ⟨rfl, fun h => by simp [Event.isRaised] at h⟩
+
+/-- iteration over any stream, in any error mode, with or without resuming after a raise:
+    no foreign exception escapes; in ignore and log modes the iterator itself never raises -/
+theorem C04_reader (ops : StreamOps σ) (T : Tables) (o : Opts) (resume : Bool) (s : σ) :
+    ∀ ev ∈ run ops T o resume s, ev.isForeign = false
+      ∧ (ev.isRaised = true → o.quitonerror = T.errRaise ∧ o.quitonerror ≠ 0) := by
+  fun_induction run ops T o resume s with
+  | case1 s r hc hlt ih =>
+    intro ev hev
+    simp only [List.mem_append] at hev
+    rcases hev with hev | hev
+    · exact readOne_events ops T o s ev hev
+    · exact ih ev hev
+  | case2 s r hc hlt =>
+    intro ev hev
+    simp only [List.mem_append, List.mem_singleton] at hev
+    rcases hev with hev | hev
+    · exact readOne_events ops T o s ev hev
+    · subst hev; exact ⟨rfl, fun h => by simp [Event.isRaised] at h⟩
+  | case3 s r hc =>
+    intro ev hev
+    exact readOne_events ops T o s ev hev
+
+/-- in ignore mode (0) and log mode the iterator never raises -/
+theorem C04_reader_never_raises_unless_raise_mode (ops : StreamOps σ) (T : Tables) (o : Opts) (resume : Bool) (s : σ)
+    (h : o.quitonerror ≠ T.errRaise) : ∀ ev ∈ run ops T o resume s, ev.isRaised = false := by
+  intro ev hev
+  have := (C04_reader ops T o resume s ev hev).2
+  cases hr : ev.isRaised
+  · rfl
+  · exact absurd (this hr).1 h
+
+end Rtcm
+
+namespace Rtcm
+
+/-- iteration over a finite file-like stream finishes, whatever short or empty reads the stream
+    injects: the model's recursion is well-founded on the number of unread bytes (the dynamic
+    measure test that guards the recursion never fires, i.e. no `stuck` event) -/
+theorem C04_file_iteration_terminates (T : Tables) (o : Opts) (resume : Bool) (data : Bytes) (sched : List (Option Nat)) :
+    ∀ ev ∈ run fileOps T o resume ⟨data, sched⟩, ev.isStuck = false ∧ ev.isForeign = false :=
+  fun ev hev => ⟨run_not_stuck fileOps_lawful T o resume _ ev hev, (C04_reader fileOps T o resume _ ev hev).1⟩
+
 end Rtcm
